@@ -39,6 +39,14 @@ fn fnv_hex(b: &[u8]) -> String {
     format!("{:016x}", fnv(b))
 }
 
+/// Key function of the "tree" corpus directories (tools/corpusgen `wide_key_bytes`)
+fn wide_key_bytes(keylen: usize, i: u16) -> Vec<u8> {
+    let mut v = vec![(i % 251) as u8; keylen];
+    v[0] = (i >> 8) as u8;
+    v[1] = i as u8;
+    v
+}
+
 fn corpus_root(verif_dir: &Path) -> PathBuf {
     verif_dir.join("corpus").join("c17")
 }
@@ -156,9 +164,21 @@ pub fn run_compat(c: &CompatCase, dir: &Path, verif_dir: &Path, _findings: &Find
             return fail("compat/quarantined", format!("{}: {} blobs of the pinned release were quarantined", c.dir, s.corrupted_blobs_count()));
         }
         let keylen = cfg.keylen;
+        let wide = exp["keyfn"].as_str() == Some("wide");
+        let mut s = s;
+        // stage 0: filters as loaded; stage 1, 2: bloom buffers off-loaded at level 0 / every level (probed from the pinned index files)
+        let stages: &[&str] = if cfg.bloom == Bloom::None { &["loaded"] } else { &["loaded", "offloaded-l0", "offloaded-all"] };
+        for (stage_no, stage) in stages.iter().enumerate() {
+        if stage_no == 1 {
+            s.offload(usize::MAX, 0).await;
+            labels.insert("filters_offloaded".to_string());
+        } else if stage_no == 2 {
+            s.offload(usize::MAX, 100).await;
+        }
         for kv in exp["keys"].as_array().cloned().unwrap_or_default() {
-            let ki = kv["key"].as_u64().unwrap_or(0) as u8;
-            let kb = key_bytes(keylen, ki);
+            let ki = kv["key"].as_u64().unwrap_or(0) as u16;
+            let kb = if wide { wide_key_bytes(keylen, ki) } else { key_bytes(keylen, ki as u8) };
+            let ki = format!("{} ({})", ki, stage);
             stats.queries += 6;
             let got = match s.read(&kb).await {
                 Ok(r) => show_rr(&r),
@@ -205,6 +225,7 @@ pub fn run_compat(c: &CompatCase, dir: &Path, verif_dir: &Path, _findings: &Find
                     return fail("compat/read_with", format!("{} key {} meta {}: got {} recorded {}", c.dir, ki, mi, got, kv["read_with"][j]));
                 }
             }
+        }
         }
         let counts = json!({"records_count": s.records_count().await, "blobs_count": s.blobs_count().await, "next_blob_id": s.next_blob_id()});
         if counts != exp["counts"] {
@@ -288,7 +309,7 @@ pub fn run(ctx: &RunCtx) -> PropResult {
     PropResult {
         report,
         level: "exploration",
-        rule: "Cross-version differential over a committed corpus: 9 directories written by the pinned tree (8fcb7aa, hooks off) with key sizes 4/8/33, bloom none / 100-bit / 1237-bit / 80 000-bit, group sizes 2-8, 2-4 blobs, deletion markers, metadata, values across both write-path thresholds, each with expected.json recording every answer the pinned code gave (read, contains, read_all_with_deletion_marker with every entry loaded, read_with x 3 metas, counts). Enumerated exhaustively: every subset of removed index files x eager/lazy init; opening with each other key size (with and without index files); version bump of every blob header; version bump of every index header. Oracle: answers equal expected.json for every present/absent index combination and after an index-version bump (the index is regenerated); index files rebuilt by the current code are byte-identical to the ones the pinned code wrote; a bumped blob version makes init fail; another key size never yields a successful read (init error, or everything quarantined with records_count 0). Non-trivial = at least one index removed or a mutation applied. distinct = FNV hash of the serialized case; the enumeration is complete for this corpus.".into(),
+        rule: "Cross-version differential over a committed corpus: 12 directories written by the pinned tree (8fcb7aa, hooks off): 9 small ones with key sizes 4/8/33, bloom none / 100-bit / 1237-bit / 80 000-bit, group sizes 2-8, 2-4 blobs, deletion markers, metadata, values across both write-path thresholds, and 3 'tree' directories (key sizes 8/33/400, 245-533 records over 2-3 blobs) whose index files have one to three levels of inner B+tree nodes; each with expected.json recording every answer the pinned code gave (read, contains, read_all_with_deletion_marker with every entry loaded, read_with x 3 metas, counts). Enumerated exhaustively: every subset of removed index files x eager/lazy init; opening with each other key size (with and without index files); version bump of every blob header; version bump of every index header. Oracle: answers equal expected.json for every present/absent index combination - with the filters as loaded and again after off-loading the bloom buffers (level 0, then all levels), so that in-file filter probing of pinned index files is exercised - and after an index-version bump (the index is regenerated); index files rebuilt by the current code are byte-identical to the ones the pinned code wrote; a bumped blob version makes init fail; another key size never yields a successful read (init error, or everything quarantined with records_count 0). Non-trivial = at least one index removed or a mutation applied. distinct = FNV hash of the serialized case; the enumeration is complete for this corpus.".into(),
         assumptions: {
             let mut a = common_assumptions();
             a.push("covers only formats the pinned tree can write; the corpus is small by construction (tools/corpusgen is its generator, kept for provenance)".into());
